@@ -259,10 +259,23 @@ Proof.
 Qed.
 End Recv.
 
+(** the mux a received message is handled on: the occupancy of a closed listener queue is 0 *)
+Definition recv_mux (e : ep) : mux :=
+  if listener_alive e then mx e else mx e <| lq_wait := 0 |> <| lq_nowait := 0 |>.
+
+Lemma Good_recv_mux e : Good e -> Good (e <| mx := recv_mux e |>).
+Proof.
+  good_intro. unfold recv_mux. destruct (listener_alive e); good_split. split; prj; lia.
+Qed.
+Lemma alive_recv_mux e : alive e = true -> alive (e <| mx := recv_mux e |>) = true.
+Proof. unfold alive, recv_mux. prj. destruct (listener_alive e); prj; auto. Qed.
+
 Lemma step_Recv e m n e' : Good e -> step_opt e (Recv m n) = Some e' -> Fin e'.
 Proof.
-  intros HG H. unfold step_opt in H. destruct (negb (alive e)) eqn:Ea; [discriminate|]. apply negb_false_iff in Ea.
-  inj H. destruct m.
+  intros HG0 H. unfold step_opt in H. destruct (negb (alive e)) eqn:Ea; [discriminate|]. apply negb_false_iff in Ea.
+  cbv zeta in H. fold (recv_mux e) in H. inj H.
+  pose proof (Good_recv_mux e HG0) as HG. apply alive_recv_mux in Ea.
+  set (e0 := e <| mx := recv_mux e |>) in *. change (recv_mux e) with (mx e0). destruct m.
   - apply rv_simple; assumption.
   - now apply rv_Hello.
   - apply rv_simple; assumption.
